@@ -18,7 +18,7 @@ RULE = (
     "outside the running body returns the model's task (identity) or, if none, a task that is not already computed and "
     "was never handed out for another key; body executions per created-and-awaited task = 1 (keyed by "
     "get_active_task()); all awaiters of one task receive the identical value / exception object; every call - also one issued from inside the running body, in a seeded spelling - is answered with the body's outcome for the requested function and arguments. "
-    "distinct = script hash; non-trivial = some call arrived while the first was in flight and blocked."
+    "Besides, 200 (thorough 3000) threads run strictly one after another, each leaving an unfinished task for the same key behind: a later thread (often with the same OS thread identifier) must get a task of its own. distinct = script hash; non-trivial = some call arrived while the first was in flight and blocked."
 )
 ASSUMPTIONS = [
     "calls issued while the in-flight task's own step is on the Python stack are unconstrained by the statement and leave the model unchanged",
@@ -477,7 +477,7 @@ def run_script(sc, prio, seed):
 def plan(tier, seed, build, scale):
     n = int((1600 if tier == "quick" else 120000) * scale)
     per = max(1, n // (8 if tier == "quick" else 64))
-    units = []
+    units = [{"mode": "generations", "n": 200 if tier == "quick" else 3000, "cases": [0, 1]}]
     a = 0
     while a < n:
         units.append({"cases": [a, min(n, a + per)]})
@@ -488,6 +488,19 @@ def plan(tier, seed, build, scale):
 def run_unit(unit, progress):
     res = tl.new_result()
     c = res["counters"]
+    if unit.get("mode") == "generations":
+        # "thread" is part of the key: a new thread never shares with a finished one, even when the OS re-issues
+        # the finished thread's identifier
+        from .. import generations
+
+        progress(0)
+        viol, stats = generations.run_generations(unit["n"])
+        res["evaluations"] = stats["generations"]
+        c["sequential_thread_generations"] = stats["generations"]
+        c["thread_idents_reused"] = stats["thread_idents_reused"]
+        for v in viol[:2]:
+            res["violations"].append({"oracle": v[0], "mechanism": v[0] + "/sequential-threads", "detail": v[1], "case": dict(unit)})
+        return res
 
     def inc(k, n=1):
         c[k] = c.get(k, 0) + n
